@@ -72,6 +72,9 @@ def _job(args):
                 res.append((cfg, out, count, None))
             except SystemExit as e:
                 res.append((cfg, None, 0, 'SystemExit(%r)' % (e.code,)))
+            except NotImplementedError as e:
+                # a loud refusal of an unsupported combination
+                res.append((cfg, None, 0, 'UNSUPPORTED ' + str(e)[:80]))
             except Exception as e:  # noqa
                 import traceback
                 res.append((cfg, None, 0, traceback.format_exc()[-300:]))
@@ -118,13 +121,16 @@ def configs(thorough, seed):
                             add(nnps=n, cache=cache, sort=sort, reorder=r,
                                 openmp=True, threads=t)
     else:
-        # a rotating slice of two-deviation combinations
-        extra = [dict(nnps=n, openmp=True, threads=t, sort=True)
-                 for n in NNPS for t in (2, 16)] + \
-                [dict(nnps=n, reorder=r, cache=True) for n in NNPS
-                 for r in (1, 3)]
-        for e in extra[seed % 4::4]:
-            add(**e)
+        # two-deviation combinations: every algorithm with threads (the
+        # thread count also selects e.g. the octree builder) and with
+        # re-ordering; the third deviation rotates with the seed
+        for n in NNPS:
+            for t in (2, 16):
+                add(nnps=n, openmp=True, threads=t, sort=bool(seed % 2))
+            add(nnps=n, openmp=True, threads=(3, 4, 8)[seed % 3],
+                sort=not bool(seed % 2), cache=True)
+            for r in (1, 3):
+                add(nnps=n, reorder=r, cache=bool((seed + r) % 2))
     return out
 
 
@@ -169,6 +175,7 @@ def run(ctx):
     viol = {}
     nrun = 0
     per = {}
+    unsupported = set()
     for job, r in zip(jobs, res):
         if isinstance(r, Crash):
             viol.setdefault('config:%s:crash' % job[0], (
@@ -178,6 +185,10 @@ def run(ctx):
         prob, lst = r
         for cfg, out, count, err in lst:
             nrun += 1
+            if err is not None and err.startswith('UNSUPPORTED'):
+                unsupported.add((cfg['nnps'], 'reorder' if cfg['reorder']
+                                 else 'other', err[12:]))
+                continue
             if err is not None:
                 viol.setdefault('config:%s:error:nnps=%s' % (prob, cfg['nnps']),
                                 (err, dict(problem=prob, cfg=cfg)))
@@ -228,12 +239,15 @@ def run(ctx):
     cov = dict(evaluations=nrun, distinct_nontrivial=ndist,
                configurations_per_problem=len(cfgs), problems=PROBLEMS,
                exhaustive=True, samples=[cfgs[1], cfgs[-1]],
+               refused_combinations=sorted(unsupported),
                rule='option vector (nnps in 10 algorithms, cache, OpenMP with '
                     '1-16 threads, reorder frequency 0/1/3, sort-gids): '
                     'everything at distance <=1 from the default, the full '
                     'nnps x cache and nnps x sort-gids planes, thread x '
-                    'sort/cache planes, plus a rotating slice of distance-2 '
-                    'combinations (thorough: nnps x cache x sort x reorder '
+                    'sort/cache planes, plus distance-2/3 '
+                    'combinations [every nnps x {2,16 threads}, x one more '
+                    'thread count with cache, x reorder 1/3] (thorough: '
+                    'nnps x cache x sort x reorder '
                     'x {serial, 2, 3, 16 threads}); 3 problems (free '
                     'surface, wall bounded, doubly periodic with two '
                     'arrays), 6 steps; every chunk repeats two runs')
